@@ -2,14 +2,13 @@
   C07 (derived part) — `CborLen` derived for structs and enums against the derived `Encode`.
   Property theorems only (helper lemmas: Lemmas/DeriveLen.lean).
 
-  `lenTy` transcribes minicbor-derive/src/cbor_len.rs *as it is*.  Two of its three defects were
+  `lenTy` transcribes minicbor-derive/src/cbor_len.rs *as it is*.  Its three defects were
   repaired in /repo (K2: map header sized from the declared field count, d85a3d2; KD1: indices
-  sized as `i32`, 36d21e9) and the model follows the repaired code; K3 (array encoding: a tagged
-  nil field below the highest present index is counted as one byte) remains, so the full
-  statement is false.  It is kept as `len_exact_derived_statement`; `len_exact_derived_partial`
-  proves it under the decidable predicate `noLenGap` that excludes exactly the K3 situation,
-  which has a machine-checked counterexample on the model (replayed on the implementation by
-  the check); the former K2 / KD1 witnesses are now positive obligations.
+  sized as `i32`, 36d21e9; K3: array encoding, a nil field below the highest present index was
+  counted as one byte whatever its tag and nil encoding, 0196d88) and the model follows the
+  repaired code, so the full statement `len_exact_derived_statement` is now a theorem
+  (`len_exact_derived`, no side condition beyond "accepted schema, well-typed value"); the former
+  K2 / KD1 / K3 witnesses are positive obligations.
 -/
 import Minicbor.Lemmas.DeriveLen
 import Minicbor.Thm.C08
@@ -17,39 +16,7 @@ import Minicbor.Thm.C08
 namespace Minicbor.C07Derive
 open Minicbor.Derive
 
-/-- one struct / variant body is free of the remaining defect (K3, array encoding): no *tagged*
-    nil field below the highest present index. -/
-def bodyOk (enc : Encoding) (ps : List (Piece Bytes)) : Bool :=
-  match enc with
-  | .array =>
-    (match maxPresent ps with
-     | none => true
-     | some m => ps.all fun p => !(p.nil && decide (p.idx ≤ m) && p.tag.isSome))
-  | .map => true
-
-mutual
-def noLenGap : FTy → Derive.Val → Bool
-  | .option t, .some v => noLenGap t v
-  | .vec t, .list vs => vs.all (noLenGap t)
-  | .struct a fs, .struct vs =>
-      noLenGapFields fs vs && (a.transparent || bodyOk (a.enc.getD .array) (encFields fs vs))
-  | .enum a vars, .enum k vs => noLenGapVars a vars k vs
-  | _, _ => true
-termination_by structural t => t
-def noLenGapFields : Fields → List Derive.Val → Bool
-  | (a, t) :: fs, v :: vs => (a.skip || noLenGap t v) && noLenGapFields fs vs
-  | _, _ => true
-termination_by structural fs => fs
-def noLenGapVars (e : EAttr) : Variants → Nat → List Derive.Val → Bool
-  | [], _, _ => true
-  | (va, fs) :: _, 0, vs =>
-      noLenGapFields fs vs
-      && (va.shape == .unit || bodyOk (va.enc.getD (e.enc.getD .array)) (encFields fs vs))
-  | _ :: rest, k + 1, vs => noLenGapVars e rest k vs
-termination_by structural vars => vars
-end
-
-/-- the full-strength statement of the property for derived types (false on the code as it is). -/
+/-- the full-strength statement of the property for derived types. -/
 def len_exact_derived_statement : Prop :=
   ∀ (t : FTy) (v : Derive.Val), accepted t = true → hasTy t v = true → deriveLen t v = (deriveEncode t v).length
 
@@ -106,9 +73,9 @@ theorem countPresent_perm {β : Type} {l₁ l₂ : List (Piece β)} (h : l₁.Pe
   | swap x y l => simp [countPresent]; omega
   | trans _ _ ih₁ ih₂ => rw [ih₁, ih₂]
 
-/-- a body free of the defects: the counters equal the bytes `encode_fields` writes. -/
+/-- the counters equal the bytes `encode_fields` writes. -/
 theorem lenFrame_exact (enc : Encoding) (fs : Fields) (vs : List Derive.Val) (hacc : acceptedFields fs = true)
-    (hnd : (liveIdxs fs).Nodup) (hty : hasFields fs vs = true) (hb : bodyOk enc (encFields fs vs) = true) :
+    (hnd : (liveIdxs fs).Nodup) (hty : hasFields fs vs = true) :
     lenFrame enc ((encFields fs vs).map toLen) = (frame enc (encFields fs vs)).length := by
   have hperm := sortP_perm (encFields fs vs)
   have nd : (idxs (encFields fs vs)).Nodup := by
@@ -122,27 +89,24 @@ theorem lenFrame_exact (enc : Encoding) (fs : Fields) (vs : List Derive.Val) (ha
   | array =>
     simp only [lenFrame, frame, sortP_toLen]
     apply lenArray_sorted _ hasc hok
-    intro m hm p hp hn hle
-    have hm' : maxPresent (encFields fs vs) = some m := by rw [← maxPresent_perm hperm]; exact hm
+    intro p hp hn
     have hp' := hperm.mem_iff.1 hp
-    simp only [bodyOk, hm', List.all_eq_true] at hb
-    have := hb p hp'
-    simp only [hn, hle, decide_true, Bool.true_and, Bool.not_eq_true', Option.isSome_eq_false_iff, Option.isNone_iff_eq_none] at this
-    exact ⟨this, encFields_nil_body fs vs hacc hty p hp' hn⟩
+    rw [encFields_nil_body fs vs hacc hty p hp' hn]
+    exact Nat.le_refl 1
   | map =>
     simp only [lenFrame, frame, sortP_toLen]
     have hlen : (sortP (encFields fs vs)).length ≤ U32 :=
       idx_lt_length_of_asc _ U32 hasc (fun p hp => (hok p hp).1)
     exact lenMap_sorted _ (by simp [U64, U32] at *; omega) (fun p hp => (hok p hp).2)
 
-theorem listSum_map_len (t : FTy) (ih : ∀ v, hasTy t v = true → noLenGap t v = true → lenTy t v = (encTy t v).length) :
-    ∀ vs : List Derive.Val, vs.all (hasTy t) = true → vs.all (noLenGap t) = true →
+theorem listSum_map_len (t : FTy) (ih : ∀ v, hasTy t v = true → lenTy t v = (encTy t v).length) :
+    ∀ vs : List Derive.Val, vs.all (hasTy t) = true →
       listSum (vs.map (lenTy t)) = ((vs.map (encTy t)).flatten).length
-  | [], _, _ => rfl
-  | v :: vs, h, hg => by
-    simp only [List.all_cons, Bool.and_eq_true] at h hg
-    simp only [List.map_cons, listSum, List.flatten_cons, List.length_append, ih v h.1 hg.1,
-      listSum_map_len t ih vs h.2 hg.2]
+  | [], _ => rfl
+  | v :: vs, h => by
+    simp only [List.all_cons, Bool.and_eq_true] at h
+    simp only [List.map_cons, listSum, List.flatten_cons, List.length_append, ih v h.1,
+      listSum_map_len t ih vs h.2]
 
 theorem blob_len (t : FTy) (v : Derive.Val) (hb : fieldBlob t = true) (hv : hasTy t v = true) :
     lenTy t v = (encTy t v).length := by
@@ -162,75 +126,62 @@ theorem blob_len (t : FTy) (v : Derive.Val) (hb : fieldBlob t = true) (hv : hasT
 /-! ### the theorem -/
 
 mutual
-theorem len_exact : ∀ (t : FTy) (v : Derive.Val), accepted t = true → hasTy t v = true → noLenGap t v = true →
+theorem len_exact : ∀ (t : FTy) (v : Derive.Val), accepted t = true → hasTy t v = true →
     lenTy t v = (encTy t v).length
-  | .int k, v, _, hv, _ => by
+  | .int k, v, _, hv => by
     cases v <;> simp [hasTy] at hv
     simp only [lenTy, encTy, int_length]
-  | .bool, v, _, hv, _ => by
+  | .bool, v, _, hv => by
     cases v <;> simp [hasTy] at hv
     rename_i b; cases b <;> rfl
-  | .text k, v, _, hv, _ => by
+  | .text k, v, _, hv => by
     cases v <;> simp [hasTy] at hv
     simp only [lenTy, encTy, Enc.str, List.length_append, typeLen_length _ _ hv.2]
-  | .blob k, v, _, hv, _ => by
+  | .blob k, v, _, hv => by
     cases v <;> simp [hasTy] at hv
     simp only [lenTy, encTy, Enc.bytes, List.length_append, typeLen_length _ _ hv]
-  | .option t, v, ha, hv, hg => by
+  | .option t, v, ha, hv => by
     simp only [accepted] at ha
     cases v <;> simp [hasTy] at hv
     · rfl
-    · simp only [noLenGap] at hg
-      simp only [lenTy, encTy]; exact len_exact t _ ha hv hg
-  | .vec t, v, ha, hv, hg => by
+    · simp only [lenTy, encTy]; exact len_exact t _ ha hv
+  | .vec t, v, ha, hv => by
     simp only [accepted] at ha
     cases v <;> simp [hasTy] at hv
     rename_i vs
-    simp only [noLenGap] at hg
     simp only [lenTy, encTy, List.length_append, array_length _ hv.2]
-    rw [listSum_map_len t (fun v hv hg => len_exact t v ha hv hg) vs (by simpa using hv.1) hg]
-  | .struct a fs, v, ha, hv, hg => by
+    rw [listSum_map_len t (fun v hv => len_exact t v ha hv) vs (by simpa using hv.1)]
+  | .struct a fs, v, ha, hv => by
     simp only [accepted, Bool.and_eq_true] at ha
     cases v <;> simp [hasTy] at hv
     rename_i vs
-    simp only [noLenGap, Bool.and_eq_true, Bool.or_eq_true] at hg
-    have hf := fields_len fs vs ha.1.1.1.2 hv hg.1
+    have hf := fields_len fs vs ha.1.1.1.2 hv
     simp only [lenTy, encTy, hf]
     cases htr : a.transparent
     · simp only [Bool.false_eq_true, if_false, List.length_append, tagBytes_length _ ha.1.1.1.1]
-      have hb : bodyOk (a.enc.getD .array) (encFields fs vs) = true := by
-        rcases hg.2 with h | h
-        · rw [htr] at h; cases h
-        · exact h
-      rw [lenFrame_exact _ fs vs ha.1.1.1.2 (C08.nodupNat_nodup _ ha.1.1.2) hv hb]
+      rw [lenFrame_exact _ fs vs ha.1.1.1.2 (C08.nodupNat_nodup _ ha.1.1.2) hv]
     · simp only [if_true]
       cases h : encFields fs vs with
       | nil => rfl
       | cons p ps => cases ps <;> simp [transparentLen, transparentBody, toLen]
-  | .enum a vars, v, ha, hv, hg => by
+  | .enum a vars, v, ha, hv => by
     simp only [accepted, Bool.and_eq_true] at ha
     cases v <;> simp [hasTy] at hv
     rename_i k vs
-    simp only [noLenGap] at hg
-    simp only [lenTy, encTy, List.length_append, tagBytes_length _ ha.1.1.1, vars_len a vars k vs ha.1.1.2 hv hg]
+    simp only [lenTy, encTy, List.length_append, tagBytes_length _ ha.1.1.1, vars_len a vars k vs ha.1.1.2 hv]
 termination_by structural t => t
 theorem fields_len : ∀ (fs : Fields) (vs : List Derive.Val), acceptedFields fs = true → hasFields fs vs = true →
-    noLenGapFields fs vs = true → lenFields fs vs = (encFields fs vs).map toLen
-  | [], vs, _, _, _ => by cases vs <;> simp [lenFields, encFields]
-  | (a, t) :: fs, [], _, _, _ => by simp [lenFields, encFields]
-  | (a, t) :: fs, v :: vs, ha, hv, hg => by
+    lenFields fs vs = (encFields fs vs).map toLen
+  | [], vs, _, _ => by cases vs <;> simp [lenFields, encFields]
+  | (a, t) :: fs, [], _, _ => by simp [lenFields, encFields]
+  | (a, t) :: fs, v :: vs, ha, hv => by
     simp only [acceptedFields, Bool.and_eq_true] at ha
     simp only [hasFields, Bool.and_eq_true] at hv
-    simp only [noLenGapFields, Bool.and_eq_true, Bool.or_eq_true] at hg
-    have ih := fields_len fs vs ha.2 hv.2 hg.2
+    have ih := fields_len fs vs ha.2 hv.2
     cases hs : a.skip
-    · have hgt : noLenGap t v = true := by
-        rcases hg.1 with h | h
-        · rw [hs] at h; cases h
-        · exact h
-      have hbody : lenTy t v = (encTy t v).length := by
+    · have hbody : lenTy t v = (encTy t v).length := by
         cases hb : fieldBlob t
-        · exact len_exact t v (by simpa [hb] using ha.1.2) hv.1 hgt
+        · exact len_exact t v (by simpa [hb] using ha.1.2) hv.1
         · exact blob_len t v hb hv.1
       have hw : lenWith a.codec (lenTy t) v = (encWith a.codec (encTy t) v).length := by
         cases hcd : a.codec
@@ -245,13 +196,12 @@ theorem fields_len : ∀ (fs : Fields) (vs : List Derive.Val), acceptedFields fs
     · simp only [lenFields, encFields, hs, if_true, ih]
 termination_by structural fs => fs
 theorem vars_len (e : EAttr) : ∀ (vars : Variants) (k : Nat) (vs : List Derive.Val),
-    acceptedVars e vars = true → hasVars vars k vs = true → noLenGapVars e vars k vs = true →
+    acceptedVars e vars = true → hasVars vars k vs = true →
     lenVars e vars k vs = (encVars e vars k vs).length
-  | [], _, _, _, hv, _ => by simp [hasVars] at hv
-  | (va, fs) :: rest, 0, vs, ha, hv, hg => by
+  | [], _, _, _, hv => by simp [hasVars] at hv
+  | (va, fs) :: rest, 0, vs, ha, hv => by
     simp only [acceptedVars, Bool.and_eq_true, decide_eq_true_eq] at ha
     simp only [hasVars] at hv
-    simp only [noLenGapVars, Bool.and_eq_true, Bool.or_eq_true] at hg
     obtain ⟨⟨⟨⟨⟨⟨hidx, htag⟩, hacc⟩, hnd⟩, hunit⟩, hio⟩, _⟩ := ha
     simp only [lenVars, encVars]
     cases hsh : va.shape
@@ -260,38 +210,35 @@ theorem vars_len (e : EAttr) : ∀ (vars : Variants) (k : Nat) (vs : List Derive
         cases (va.enc.getD (e.enc.getD .array)) <;> simp [emptyBody, Enc.array, Enc.map, Enc.typeLen] <;> omega
       · simp only [if_true, u32_length, idxLen]
     all_goals
-      have hf := fields_len fs vs hacc hv hg.1
-      have hb : bodyOk (va.enc.getD (e.enc.getD .array)) (encFields fs vs) = true := by
-        rcases hg.2 with h | h
-        · rw [hsh] at h; simp at h
-        · exact h
+      have hf := fields_len fs vs hacc hv
       simp only [List.length_append, u32_length, tagBytes_length _ htag, idxLen, hf,
-        lenFrame_exact _ fs vs hacc (C08.nodupNat_nodup _ hnd) hv hb]
+        lenFrame_exact _ fs vs hacc (C08.nodupNat_nodup _ hnd) hv]
       simp [Enc.array, Enc.typeLen] <;> omega
-  | (va, fs) :: rest, k + 1, vs, ha, hv, hg => by
+  | (va, fs) :: rest, k + 1, vs, ha, hv => by
     simp only [acceptedVars, Bool.and_eq_true] at ha
     simp only [hasVars] at hv
-    simp only [noLenGapVars] at hg
     simp only [lenVars, encVars]
-    exact vars_len e rest k vs ha.2 hv hg
+    exact vars_len e rest k vs ha.2 hv
 termination_by structural vars => vars
 end
 
-/-- **C07 for derived types, partial**: outside the three recorded defects the derived length is
-    exactly the number of bytes the derived encoder writes — for every accepted schema (any
-    number of fields, any index and tag sizes, both encodings at every level, `index_only`,
-    transparent, skip, custom codecs, nesting) and every value. -/
-theorem len_exact_derived_partial (t : FTy) (v : Derive.Val) (ha : accepted t = true) (hv : hasTy t v = true)
-    (hg : noLenGap t v = true) : deriveLen t v = (deriveEncode t v).length := len_exact t v ha hv hg
+/-- **C07 for derived types, full**: the derived length is exactly the number of bytes the derived
+    encoder writes — for every accepted schema (any number of fields, any index and tag sizes, both
+    encodings at every level, `index_only`, transparent, skip, custom codecs, tagged optional
+    fields present or absent at any position, nesting) and every well-typed value. -/
+theorem len_exact_derived (t : FTy) (v : Derive.Val) (ha : accepted t = true) (hv : hasTy t v = true) :
+    deriveLen t v = (deriveEncode t v).length := len_exact t v ha hv
+
+theorem len_exact_derived_statement_holds : len_exact_derived_statement := len_exact_derived
 
 theorem lenArray_exact (S : List (Piece Bytes)) (hasc : Asc S) (hok : ∀ p ∈ S, p.idx < U32 ∧ tagOk p.tag = true)
-    (hk3 : ∀ m, maxPresent S = some m → ∀ p ∈ S, p.nil = true → p.idx ≤ m → p.tag = none ∧ p.body.length = 1) :
-    lenArray (S.map toLen) = (frameArray S).length := lenArray_sorted S hasc hok hk3
+    (hnb : ∀ p ∈ S, p.nil = true → 1 ≤ p.body.length) :
+    lenArray (S.map toLen) = (frameArray S).length := lenArray_sorted S hasc hok hnb
 
 theorem lenMap_exact (S : List (Piece Bytes)) (hlen : S.length < U64) (hok : ∀ p ∈ S, tagOk p.tag = true) :
     lenMap (S.map toLen) = (frameMap S).length := lenMap_sorted S hlen hok
 
-/-! ### the remaining defect, machine-checked on the model; the repaired ones as obligations -/
+/-! ### the repaired defects as obligations -/
 
 /-- 24 optional fields `#[n(0)] … #[n(23)]`, map encoding. -/
 def k2Fields : Nat → Fields
@@ -308,11 +255,24 @@ theorem len_derived_K2_repaired :
 
 def k3Type : FTy := .struct {} [({ idx := 0, tag := some 5 }, .option (.int .u8)), ({ idx := 1 }, .int .u8)]
 
-/-- K3: `struct{#[n(0)] #[cbor(tag(5))] a: Option<u8>, #[n(1)] b: u8}`, `{a: None, b: 1}`:
-    the encoder writes `82 c5 f6 01` (4 bytes), `len` says 3. -/
-theorem len_derived_counterexample_K3 :
+/-- the former K3 witness: `struct{#[n(0)] #[cbor(tag(5))] a: Option<u8>, #[n(1)] b: u8}`,
+    `{a: None, b: 1}`: the encoder writes `82 c5 f6 01` (4 bytes); `len` said 3, exact since 0196d88. -/
+theorem len_derived_K3_repaired :
     accepted k3Type = true ∧ hasTy k3Type (.struct [.none, .int 1]) = true ∧
-      deriveEncode k3Type (.struct [.none, .int 1]) = [0x82, 0xc5, 0xf6, 0x01] ∧ deriveLen k3Type (.struct [.none, .int 1]) = 3 := by
+      deriveEncode k3Type (.struct [.none, .int 1]) = [0x82, 0xc5, 0xf6, 0x01] ∧ deriveLen k3Type (.struct [.none, .int 1]) = 4 := by
+  refine ⟨by rfl, by rfl, by rfl, by rfl⟩
+
+/-- a second K3-shaped witness: two tagged nil fields and a nil-codec field below the last present
+    one, then a nil field beyond it (not written, not counted). -/
+def k3Type2 : FTy := .struct {}
+  [({ idx := 0, tag := some 5 }, .option (.int .u8)), ({ idx := 2, tag := some 1000 }, .option (.int .u8)),
+   ({ idx := 3, codec := .nilu }, .int .u32), ({ idx := 5 }, .int .u8), ({ idx := 7, tag := some 9 }, .option (.int .u8))]
+
+theorem len_derived_K3_repaired2 :
+    accepted k3Type2 = true ∧ hasTy k3Type2 (.struct [.none, .none, .int 0, .int 1, .none]) = true ∧
+      deriveLen k3Type2 (.struct [.none, .none, .int 0, .int 1, .none])
+        = (deriveEncode k3Type2 (.struct [.none, .none, .int 0, .int 1, .none])).length ∧
+      (deriveEncode k3Type2 (.struct [.none, .none, .int 0, .int 1, .none])).length = 11 := by
   refine ⟨by rfl, by rfl, by rfl, by rfl⟩
 
 def kd1Type : FTy := .struct { enc := some .map } [({ idx := 4294967295 }, .int .u8)]
@@ -321,20 +281,6 @@ def kd1Type : FTy := .struct { enc := some .map } [({ idx := 4294967295 }, .int 
 theorem len_derived_KD1_repaired :
     accepted kd1Type = true ∧ hasTy kd1Type (.struct [.int 1]) = true ∧
       deriveEncode kd1Type (.struct [.int 1]) = [0xa1, 0x1a, 0xff, 0xff, 0xff, 0xff, 0x01] ∧ deriveLen kd1Type (.struct [.int 1]) = 7 := by
-  refine ⟨by rfl, by rfl, by rfl, by rfl⟩
-
-theorem len_exact_derived_statement_false : ¬ len_exact_derived_statement := by
-  intro h
-  have := h k3Type (.struct [.none, .int 1]) (by rfl) (by rfl)
-  revert this
-  decide
-
-/-- non-vacuity: `noLenGap` holds for a value with a gap, a tagged *present* optional, a nil codec
-    field and a skipped field, and for the former K2 / KD1 witnesses; it fails on the K3 witness. -/
-theorem noLenGap_example :
-    noLenGap C08.exStruct (.struct [.some (.int 7), .text [0x61], .int 0, .bool true]) = true ∧
-    noLenGap k2Type k2Val = true ∧ noLenGap k3Type (.struct [.none, .int 1]) = false ∧
-    noLenGap kd1Type (.struct [.int 1]) = true := by
   refine ⟨by rfl, by rfl, by rfl, by rfl⟩
 
 end Minicbor.C07Derive
